@@ -229,6 +229,7 @@ type TBtree struct {
 	snapshots        map[uint64]*Snapshot
 	maxSnapshotID    uint64
 	lastSnapRoot     node
+	flushedRoot      node // root as last flushed or loaded from disk: what a failed insertion rolls back to
 	lastSnapRootAt   time.Time
 
 	committedLogSize  int64
@@ -700,6 +701,7 @@ func OpenWith(path, tsFile string, nLog, hLog, cLog appendable.Appendable, opts 
 		t.committedNLogSize = validatedCLogEntry.finalNLogSize
 		t.committedHLogSize = validatedCLogEntry.finalHLogSize
 		t.minOffset = t.root.minOffset()
+		t.flushedRoot = t.root
 	}
 
 	metricsBtreeNodesDataBeginOffset.WithLabelValues(t.path).Set(float64(t.minOffset))
@@ -1368,6 +1370,7 @@ func (t *TBtree) flushTree(cleanupPercentageHint float32, forceSync bool, forceC
 	// current root can be used as latest snapshot as !t.root.mutated() holds
 	t.lastSnapRoot = t.root
 	t.lastSnapRootAt = time.Now()
+	t.flushedRoot = t.root
 
 	return wN, wH, nil
 }
@@ -1874,11 +1877,12 @@ func (t *TBtree) bulkInsert(kvts []*KVT) error {
 
 		if t.root.mutated() {
 			// changes may need to be rolled back
-			// the most recent snapshot becomes the root again or a fresh start if no snapshots are stored
-			if t.lastSnapRoot == nil {
+			// the root as last flushed (or loaded when the index was opened) becomes the root again,
+			// or a fresh start if nothing was ever stored
+			if t.flushedRoot == nil {
 				t.root = &leafNode{t: t, mut: true}
 			} else {
-				t.root = t.lastSnapRoot
+				t.root = t.flushedRoot
 			}
 		}
 
